@@ -32,12 +32,15 @@ type act struct {
 	M     string `json:"m"`
 	Ratio int    `json:"ratio"`
 	As    []act  `json:"as"` // op "batch": critical sections queued on the held map mutex
+	N     int    `json:"n"`  // op "run": acquire/release cycles
 }
 
 func (a act) rec() tr.E {
 	switch a.Op {
 	case "acq", "acqc":
 		return tr.E{"op": a.Op, "p": a.P, "k": a.K, "m": a.M}
+	case "run": // n cycles of this acquire and its release
+		return tr.E{"op": "acq", "p": a.P, "k": a.K, "m": a.M}
 	}
 	return tr.E{"op": a.Op, "p": a.P}
 }
@@ -69,15 +72,25 @@ type proc struct {
 }
 
 type world struct {
-	m      semap.SemMapper
-	x      *qx.Exec
-	ps     []*proc
-	nkeys  int
-	keyStr bool
-	keyMix bool
+	m         semap.SemMapper
+	x         *qx.Exec
+	ps        []*proc
+	nkeys     int
+	keyStr    bool
+	keyMix    bool
+	keyOdd    bool // keys of unusual dynamic kinds (kinds.go)
+	variant   string
+	koff      int
+	dead      bool // a run did not come back: nothing more is issued in this world
+	ratio     int  // as the trace carries it (hugeSpec for "no limit")
+	barrier   *barrier
+	lastRunOK int
 }
 
 func (wd *world) key(k int) interface{} {
+	if wd.keyOdd {
+		return oddKey(wd.variant, k, wd.koff)
+	}
 	if wd.keyMix {
 		// equal numbers in different integer types (and a string) are different interface{} keys
 		switch k % 6 {
@@ -141,7 +154,10 @@ func (wd *world) poll(cancelled int) {
 }
 
 func (wd *world) applicable(a act) bool {
-	if a.Op == "batch" {
+	if wd.dead {
+		return false
+	}
+	if a.Op == "batch" || a.Op == "race" {
 		return len(a.As) >= 2
 	}
 	if a.P < 1 || a.P > len(wd.ps) {
@@ -149,6 +165,23 @@ func (wd *world) applicable(a act) bool {
 	}
 	p := wd.ps[a.P-1]
 	switch a.Op {
+	case "run":
+		// cycles of acquire/release that the ideal semaphore grants at once, by what the harness itself
+		// has issued and seen come back: nobody else on the key, or only readers holding it and room
+		if p.status != "idle" || a.N < 1 || a.K < 1 || a.K > wd.nkeys {
+			return false
+		}
+		readers := 0
+		for _, q := range wd.ps {
+			if q.status == "idle" || q.k != a.K {
+				continue
+			}
+			if q.status != "hold" || q.m != "r" || a.M != "r" {
+				return false
+			}
+			readers++
+		}
+		return readers == 0 || readers < wd.ratio
 	case "acq", "acqc":
 		return p.status == "idle"
 	case "rel":
@@ -168,17 +201,18 @@ func (wd *world) issue(a act) int {
 	cancelled := 0
 	switch a.Op {
 	case "acq", "acqc":
-		ctx, cancel := context.WithCancel(context.Background())
+		ctx, cancel := newCtx(a.Op == "acqc")
 		p.cancel, p.k, p.m = cancel, a.K, a.M
 		if a.Op == "acqc" {
-			cancel()
 			atomic.StoreInt32(&gateArmed, 0)
 		}
 		key := wd.key(a.K)
 		mode := a.M
 		m := wd.m
 		p.status = "parked"
+		bar := wd.barrier
 		wd.x.Issue(a.P, func() interface{} {
+			bar.wait()
 			var w *semap.Weighted
 			var err error
 			if mode == "w" {
@@ -190,7 +224,9 @@ func (wd *world) issue(a act) int {
 		})
 	case "rel":
 		key, w, mode, m := wd.key(p.k), p.w, p.m, wd.m
+		bar := wd.barrier
 		wd.x.Issue(a.P, func() interface{} {
+			bar.wait()
 			if mode == "w" {
 				m.ReleaseWrite(key, w)
 			} else {
@@ -214,8 +250,15 @@ func (wd *world) issue(a act) int {
 }
 
 func (wd *world) step(a act) {
-	if a.Op == "batch" {
+	switch a.Op {
+	case "batch":
 		wd.batch(a)
+		return
+	case "race":
+		wd.race(a)
+		return
+	case "run":
+		wd.run(a)
 		return
 	}
 	cancelled := wd.issue(a)
@@ -273,7 +316,10 @@ func (wd *world) obs(a act) tr.E {
 		present, cur, waiters := semap.VerifKeyState(wd.m, wd.key(k))
 		keys[k-1] = tr.E{"present": present, "cur": specCur(curRatio, cur), "waiters": waiters}
 	}
-	if a.Op == "batch" {
+	if a.Op == "run" {
+		return tr.E{"ev": "run", "a": a.rec(), "n": a.N, "ok": wd.lastRunOK, "st": st, "keys": keys, "entries": semap.VerifEntries(wd.m)}
+	}
+	if a.Op == "batch" || a.Op == "race" {
 		as := make([]tr.E, 0, len(a.As))
 		for _, it := range a.As {
 			as = append(as, it.rec())
@@ -360,9 +406,11 @@ func newMap(variant string, ratio, shards int) semap.SemMapper {
 }
 
 func newWorld(variant string, ratio, shards, nprocs, nkeys int, keyStr bool) *world {
-	wd := &world{m: newMap(variant, ratio, shards), x: qx.New(nprocs), nkeys: nkeys, keyStr: keyStr}
+	wd := &world{m: newMap(variant, ratio, shards), x: qx.New(nprocs), nkeys: nkeys, keyStr: keyStr, variant: variant, ratio: ratio}
 	mixCounter++
 	wd.keyMix = mixCounter%5 == 0
+	wd.keyOdd = mixCounter%5 == 2
+	wd.koff = mixCounter / 5
 	for i := 0; i < nprocs; i++ {
 		wd.ps = append(wd.ps, &proc{status: "idle"})
 	}
@@ -372,6 +420,9 @@ func newWorld(variant string, ratio, shards, nprocs, nkeys int, keyStr bool) *wo
 // drain releases everything at the end of a plan so that goroutines do not pile up and so that
 // the final "no residue" observation is part of every trace.
 func (wd *world) drain(w *tr.W) {
+	if wd.dead {
+		return // a worker is parked inside a run: the event said so; its goroutines are left behind
+	}
 	for round := 0; round < 4*len(wd.ps)+4; round++ {
 		var a *act
 		for i, p := range wd.ps {
@@ -404,9 +455,9 @@ func (wd *world) drain(w *tr.W) {
 
 func runPlan(w *tr.W, src, variant string, ratio, shards, nprocs, nkeys int, keyStr bool, plan []act) {
 	wd := newWorld(variant, ratio, shards, nprocs, nkeys, keyStr)
-	w.Emit(tr.E{"ev": "reset", "ratio": ratio, "variant": variant, "shards": shards, "src": src, "keystr": keyStr, "keymix": wd.keyMix})
+	w.Emit(tr.E{"ev": "reset", "ratio": ratio, "variant": variant, "shards": shards, "src": src, "keystr": keyStr, "keymix": wd.keyMix, "keyodd": wd.keyOdd})
 	for _, a := range plan {
-		if a.Op == "batch" {
+		if a.Op == "batch" || a.Op == "race" {
 			a = wd.resolveBatch(a)
 		}
 		if !wd.applicable(a) {
@@ -487,7 +538,7 @@ func randPlan(rng *rand.Rand, nprocs, nkeys, n int) []act {
 	for i := 0; i < n; i++ {
 		p := rng.Intn(nprocs) + 1
 		if rng.Intn(6) == 0 {
-			b := act{Op: "batch", K: rng.Intn(nkeys) + 1}
+			b := act{Op: []string{"batch", "race"}[rng.Intn(2)], K: rng.Intn(nkeys) + 1}
 			for j := 0; j < 2+rng.Intn(3); j++ {
 				m := "r"
 				if rng.Intn(3) == 0 {
@@ -496,6 +547,14 @@ func randPlan(rng *rand.Rand, nprocs, nkeys, n int) []act {
 				b.As = append(b.As, act{Op: []string{"acq", "rel", "cancel", "rel", "cancel"}[rng.Intn(5)], P: rng.Intn(nprocs) + 1, M: m})
 			}
 			out = append(out, b)
+			continue
+		}
+		if rng.Intn(40) == 0 {
+			m := "r"
+			if rng.Intn(3) == 0 {
+				m = "w"
+			}
+			out = append(out, act{Op: "run", P: p, K: rng.Intn(nkeys) + 1, M: m, N: []int{2, 255, 256, 257, 65536, 1000}[rng.Intn(6)]})
 			continue
 		}
 		switch x := rng.Intn(100); {
@@ -721,6 +780,10 @@ func main() {
 	sthreads := flag.Int("sthreads", 16, "goroutines of a heavy stress run")
 	sops := flag.Int("sops", 1200, "operations per goroutine of a heavy stress run")
 	shardedOnly := flag.Bool("sharded", false, "sharded variants only (used by C17)")
+	nlong := flag.Int("nlong", 0, "plans with long runs of acquire/release cycles around counter widths")
+	npingpong := flag.Int("npingpong", 0, "hand-offs of the two-writer ping-pong plan (0: none)")
+	nraces := flag.Int("nraces", 0, "race rounds in step mode: holders release, waiters are cancelled, newcomers arrive at one instant")
+	nsim := flag.Int("nsim", 0, "free-running rounds of simultaneous releases")
 	flag.Parse()
 	rng := rand.New(rand.NewSource(*seed))
 	semap.VerifGate = gate
@@ -743,13 +806,22 @@ func main() {
 		}
 	}
 	for i := 0; i < *nrand; i++ {
-		ratio := []int{1, 2, 3, 10, 1, 2, 3, hugeSpec, hugeSpec - 1}[rng.Intn(9)]
+		ratio := []int{1, 2, 3, 10, 1, 2, 3, hugeSpec, hugeSpec - 1, 255, 256, 257, 65535, 65536, 65537}[rng.Intn(15)]
 		np := rng.Intn(4) + 3
 		nk := rng.Intn(3) + 1
 		runPlan(w, "rand", variants[rng.Intn(3)], ratio, shardsL[rng.Intn(4)], np, nk, rng.Intn(2) == 0,
 			randPlan(rng, np, nk, 30+rng.Intn(40)))
 	}
 	nb := batchEnum(w, rng, variants[int(*seed)%3], shardsL[int(*seed)%4], *seed%2 == 0, *nbatch)
+	// long runs: cycles around counter widths, hand-offs between two writers; calls released together
+	for i := 0; i < *nlong; i++ {
+		ratio, plan := longPlans(rng)
+		runPlan(w, "long", variants[i%3], ratio, shardsL[rng.Intn(4)], 4, 2, i%2 == 0, plan)
+	}
+	if *npingpong > 0 {
+		runPlan(w, "pingpong", variants[int(*seed)%3], 1+int(*seed)%2, shardsL[rng.Intn(4)], 2, 1, false, pingPong(*npingpong))
+	}
+	raceRounds(w, rng, variants, shardsL, *nraces)
 	w.Close()
 	sw := tr.Create(*stress)
 	for i := 0; i < *nstress; i++ {
@@ -762,6 +834,9 @@ func main() {
 	}
 	for i := 0; i < *ncold && coldStuck < 3; i++ {
 		runCold(sw, rng, variants[i%3], []int{1, 2, 3, hugeSpec}[rng.Intn(4)], shardsL[rng.Intn(4)], 2+rng.Intn(3))
+	}
+	for i := 0; i < *nsim && simStuck < 3; i++ {
+		runSim(sw, rng, variants[i%3], []int{1, 2, 3, 4, 10, hugeSpec}[rng.Intn(6)], shardsL[rng.Intn(4)])
 	}
 	sw.Close()
 	fmt.Printf("step_events=%d stress_events=%d batches_enumerated=%d\n", w.N(), sw.N(), nb)
